@@ -25,6 +25,8 @@ type scriptT struct {
 	in       []byte // pending inbound bytes of the current generation
 	inErr    error  // returned by Read once `in` is exhausted (nil = block)
 	failOpen int    // next n Open calls fail
+	openDelay   time.Duration // Open takes this long (a slow connect)
+	lenientOpen bool          // Open on an open stream returns nil (as TMemoryBuffer, THttpClient, StreamTransport do)
 	openErr  error
 	closeErr error // returned by the next Close (transport stays open then)
 
@@ -56,6 +58,12 @@ func eofErr() error { return thrift.NewTTransportExceptionFromError(io.EOF) }
 
 func (s *scriptT) Open() error {
 	s.mu.Lock()
+	d := s.openDelay
+	s.mu.Unlock()
+	if d > 0 {
+		time.Sleep(d)
+	}
+	s.mu.Lock()
 	defer s.mu.Unlock()
 	s.opens++
 	if s.failOpen > 0 {
@@ -66,6 +74,9 @@ func (s *scriptT) Open() error {
 		return thrift.NewTTransportException(thrift.NOT_OPEN, "scriptT: scripted open failure")
 	}
 	if s.open {
+		if s.lenientOpen {
+			return nil
+		}
 		return thrift.NewTTransportException(thrift.ALREADY_OPEN, "scriptT: already open")
 	}
 	s.open = true
